@@ -42,6 +42,9 @@ type c7proj struct {
 	// skipRootDef: ignore a root arc `_#def` (the wrapper Profile.Def adds around a
 	// definition so that the output is closed)
 	skipRootDef bool
+	// patValues: pattern constraints compare by pattern AND by the canonical form of the
+	// constraint (set for the "repeated declarations" family, c07_fam.go)
+	patValues bool
 }
 
 type c7canon struct {
@@ -399,7 +402,11 @@ func (k *c7canon) patterns(v *adt.Vertex, sb *strings.Builder) {
 			continue
 		}
 		k.nPattern++
-		parts = append(parts, "["+k.value(p.Pattern)+"]")
+		s := "[" + k.value(p.Pattern) + "]"
+		if k.p.patValues && p.Constraint != nil {
+			s += ":" + k.patternValue(v, p)
+		}
+		parts = append(parts, s)
 	}
 	if len(parts) == 0 {
 		return
@@ -407,6 +414,22 @@ func (k *c7canon) patterns(v *adt.Vertex, sb *strings.Builder) {
 	sort.Strings(parts)
 	parts = c7uniq(parts)
 	sb.WriteString("P{" + strings.Join(parts, ";") + "}")
+}
+
+// patternValue: the canonical form of what a pattern constraint demands of a matching field: a
+// fresh vertex holding exactly the constraint's conjuncts, evaluated.
+func (k *c7canon) patternValue(v *adt.Vertex, p adt.PatternConstraint) (s string) {
+	defer func() {
+		if recover() != nil {
+			s = "<panic>"
+		}
+	}()
+	typ := &adt.Vertex{Parent: v, Label: adt.MakeStringLabel(k.r, "zzq")}
+	typ.InsertConjunctsFrom(p.Constraint)
+	typ.Finalize(k.ctx)
+	var sb strings.Builder
+	k.vertex(typ, &sb)
+	return sb.String()
 }
 
 // patternIsEllipsis: the pattern matches every string label and the constraint is top.
